@@ -18,7 +18,8 @@ Names13 == <<"mmd_ova", "mmd_ovo", "wasserstein_ova", "wasserstein_ovo", "kl_ova
 GeminiVals == Names13 \o <<"none", "inst_mmd_rbf_ovo", "inst_wasserstein_l1", "inst_mmd_precomputed">>
 P(n, v) == [name |-> n, vals |-> v]
 Common == << P("n_clusters", <<"1", "2", "3", "n">>), P("solver", <<"sgd", "adam">>),
-             P("max_iter", <<"1", "2", "3">>), P("learning_rate", <<"0.001", "0.5">>) >>
+             P("max_iter", <<"1", "2", "3">>), P("learning_rate", <<"0.001", "0.5">>),
+             P("verbose", <<"false", "false", "true">>), P("random_state", <<"int", "int", "instance", "none">>) >>
 Batch == << P("batch_size", <<"none", "1", "2", "3", "n", "n+1">>) >>
 Gem == << P("gemini", GeminiVals) >>
 MMD == << P("kernel", <<"linear", "rbf", "polynomial", "sigmoid", "laplacian", "precomputed", "callable">>), P("ovo", <<"false", "true">>),
@@ -52,12 +53,16 @@ ParamsOf(e) ==
       [] e = "Kauri" -> << P("max_clusters", <<"1", "2", "3", "4">>), P("max_depth", <<"none", "1", "2">>),
                            P("min_samples_split", <<"2", "3", "4">>), P("min_samples_leaf", <<"1", "2">>),
                            P("max_features", <<"none", "1", "d", "d+2">>), P("max_leaves", <<"none", "2", "3">>),
-                           P("kernel", <<"linear", "rbf", "precomputed">>) >>
+                           P("kernel", <<"linear", "rbf", "precomputed">>), P("verbose", <<"false", "true">>),
+                           P("random_state", <<"int", "instance", "none">>) >>
 
 DataParams == IF AWKWARD
-              THEN << P("n", <<"K", "K+1", "6">>), P("d", <<"1", "2", "3">>),
+              THEN << P("layout", <<"c64">>), P("decorated", <<"no">>), P("n", <<"K", "K+1", "6">>), P("d", <<"1", "2", "3">>),
                       P("kind", <<"scale1000", "const_col", "dup_col", "dup_rows", "all_equal_rows", "scale1000_const", "tiny_scale", "int">>) >>
-              ELSE << P("n", <<"K", "K+1", "5", "8">>), P("d", <<"1", "2", "3">>), P("kind", <<"int", "gauss", "ties">>) >>
+              ELSE << P("n", <<"K", "K+1", "5", "8">>), P("d", <<"1", "2", "3">>), P("kind", <<"int", "gauss", "ties">>),
+                      (* how the caller hands the data over: every array-like of finite numbers is legal input *)
+                      P("layout", <<"c64", "c64", "f32", "fortran", "noncontiguous", "list", "int64">>),
+                      P("decorated", <<"no", "no", "no", "mlcl">>) >>
 
 Hash(a, b) == (a * 7919 + b * 104729 + SEEDC * 31337 + (((a * b) % 1013) * 811)) % 1000003
 PickVal(idx, pnum, vals) == vals[(Hash(idx, pnum) % Len(vals)) + 1]
